@@ -8,8 +8,8 @@ Local Open Scope Z_scope.
 Record config := { aligned_gentypes : bool; simd : bool; xyzw_only : bool; anonymous_struct : bool; swizzle : Z; length_size_t : bool; quat_wxyz : bool; default_aligned : bool }.
 Inductive rec :=
 | Vec (L : nat) (ty q : string) (al : bool) (es size align : Z) (offs : list Z) (offx vp len lensize : Z) (rt : bool)
-| Mat (C R : nat) (ty q : string) (al : bool) (es size align colsize colalign : Z) (offs : list Z) (vp len : Z) (rt : bool)
-| Qua (ty q : string) (al : bool) (es size align ox oy oz ow : Z) (offs : list Z) (vp len : Z) (rt : bool)
+| Mat (C R : nat) (ty q : string) (al : bool) (es size align colsize colalign : Z) (offs : list Z) (vp len lensize : Z) (rt : bool)
+| Qua (ty q : string) (al : bool) (es size align ox oy oz ow : Z) (offs : list Z) (vp len lensize : Z) (rt : bool)
 | Make (ty : string) (rt : bool).
 
 Fixpoint list_eqb (a b : list Z) : bool := match a, b with [] , [] => true | x :: a', y :: b' => (x =? y) && list_eqb a' b' | _, _ => false end.
@@ -33,15 +33,15 @@ Definition rec_ok (cfg : config) (r : rec) : bool :=
       let a := is_aligned cfg q al in
       (size =? vec_size L a es) && vec_align_ok L a es align && list_eqb offs (contiguous L es) && (offx =? 0) && (vp =? 0) &&
       (len =? Z.of_nat L) && (lensize =? (if length_size_t cfg then 8 else 4)) && rt
-  | Mat C R ty q al es size align colsize colalign offs vp len rt =>
+  | Mat C R ty q al es size align colsize colalign offs vp len lensize rt =>
       let a := is_aligned cfg q al in
       (colsize =? vec_size R a es) && vec_align_ok R a es colalign && (size =? Z.of_nat C * colsize) && (align =? colalign) &&
-      list_eqb offs (mat_offsets C R colsize es) && (vp =? 0) && (len =? Z.of_nat C) && rt
-  | Qua ty q al es size align ox oy oz ow offs vp len rt =>
+      list_eqb offs (mat_offsets C R colsize es) && (vp =? 0) && (len =? Z.of_nat C) && (lensize =? (if length_size_t cfg then 8 else 4)) && rt
+  | Qua ty q al es size align ox oy oz ow offs vp len lensize rt =>
       let a := is_aligned cfg q al in
       (size =? 4 * es) && vec_align_ok 4 a es align &&
       (if quat_wxyz cfg then list_eqb [ow; ox; oy; oz] (contiguous 4 es) else list_eqb [ox; oy; oz; ow] (contiguous 4 es)) &&
-      list_eqb offs (contiguous 4 es) && (vp =? 0) && (len =? 4) && rt
+      list_eqb offs (contiguous 4 es) && (vp =? 0) && (len =? 4) && (lensize =? (if length_size_t cfg then 8 else 4)) && rt
   | Make ty rt => rt
   end.
 
@@ -78,8 +78,8 @@ Proof.
   rewrite G by exact Hc. reflexivity.
 Qed.
 (* a matrix is C consecutive columns; for a packed matrix value_ptr(m)[c*R + r] is m[c][r] *)
-Theorem mat_column_major cfg C R ty q al es size align colsize colalign offs vp len rt :
-  rec_ok cfg (Mat C R ty q al es size align colsize colalign offs vp len rt) = true ->
+Theorem mat_column_major cfg C R ty q al es size align colsize colalign offs vp len lensize rt :
+  rec_ok cfg (Mat C R ty q al es size align colsize colalign offs vp len lensize rt) = true ->
   (forall c r, (c < C)%nat -> (r < R)%nat -> nth (c * R + r) offs 0 = Z.of_nat c * colsize + Z.of_nat r * es) /\ vp = 0 /\ size = Z.of_nat C * colsize /\
   (is_aligned cfg q al = false -> forall c r, (c < C)%nat -> (r < R)%nat -> nth (c * R + r) offs 0 = Z.of_nat (c * R + r) * es).
 Proof.
@@ -90,8 +90,8 @@ Proof.
   - intros Ha c r Hc Hr. rewrite nth_mat_offsets by assumption. subst colsize. unfold vec_size, vec_elems. rewrite Ha. cbn [andb]. rewrite Nat2Z.inj_add, Nat2Z.inj_mul. ring.
 Qed.
 (* quaternion memory order *)
-Theorem qua_order cfg ty q al es size align ox oy oz ow offs vp len rt :
-  rec_ok cfg (Qua ty q al es size align ox oy oz ow offs vp len rt) = true ->
+Theorem qua_order cfg ty q al es size align ox oy oz ow offs vp len lensize rt :
+  rec_ok cfg (Qua ty q al es size align ox oy oz ow offs vp len lensize rt) = true ->
   (if quat_wxyz cfg then ow = 0 /\ ox = es /\ oy = 2 * es /\ oz = 3 * es else ox = 0 /\ oy = es /\ oz = 2 * es /\ ow = 3 * es) /\ size = 4 * es /\ vp = 0.
 Proof.
   cbn [rec_ok]. destruct (quat_wxyz cfg); intros H; repeat (apply andb_true_iff in H as [H ?]);
